@@ -14,6 +14,7 @@ mod enc;
 mod c08;
 mod c10;
 mod c18;
+mod c17;
 mod c02;
 
 pub struct Out {
@@ -80,6 +81,7 @@ fn main() {
                 "C19" => c19::gen(seed, n, &mut out),
                 "C08" | "C09" => c08::gen(prop, seed, n, &mut out),
                 "C10" | "C11" | "C12" => c10::gen(prop, seed, n, &mut out),
+                "C17g" | "C17s" => c17::gen(prop, seed, n, &mut out),
                 "C18g6" => c18::gen_g6(seed, n, &mut out),
                 "C18dot" => c18::gen_dot(seed, n, &mut out),
                 "C01" => c01::gen(seed, n, &mut out),
@@ -96,6 +98,7 @@ fn main() {
             match prop {
                 "C19" => c19::replay(&text, &mut out),
                 "C01" => for (id, h, ops) in parse_generic(&text) { c01::run_case(id, &h, &ops, &mut out) },
+                "C17g" | "C17s" => for (id, h, ops) in parse_generic(&text) { c17::run_case(prop, id, &h, &ops, &mut out) },
                 "C02" => for (id, h, ops) in parse_generic(&text) { c02::run_case(id, &h, &ops, &mut out) },
                 "C03" => for (id, h, ops) in parse_generic(&text) { c03::run_case(id, &h, &ops, &mut out) },
                 "C04" => for (id, h, ops) in parse_generic(&text) { c04::run_case(id, &h, &ops, &mut out) },
